@@ -3,21 +3,32 @@
 ENTRY = {
         "coq_dir": "C03",
         "harness": "c03",
-        "model_files": ["Model", "Msg", "Glue"],
+        "model_files": ["Model", "Msg", "Timed", "NegOps", "Glue"],
         "proof_files": ["Properties"],
         "cases": {"quick": 3000, "thorough": 150000},
         "consts": ["C03_MAX_LEN_BYTES", "C03_MAX_PROTOCOLS"],
         "nontrivial_min_trace": 12,
-        "rule": ("four kinds of cases per run: (i) corpus witnesses (V1Lazy pitfall, 16 KiB frame boundary, names with newline / equal to the header / "
-                "without slash, fallback-table edge cases); (ii) exhaustive small scope: all pairs of dialer list x listener list over {/a, /a/b, /c} with "
+        "rule": ("kinds of cases per run: (i) corpus witnesses (V1Lazy pitfall, 16 KiB frame boundary, names with newline / equal to the header / "
+                "without slash, fallback-table edge cases, close after a failed optimistic negotiation); (ii) exhaustive small scope: all pairs of dialer list x listener list over {/a, /a/b, /c} with "
                 "length <= 2 (quick, 2 chunkings) or <= 3 (thorough, 4 chunkings incl. byte-at-a-time and Pending-every-other-call), payloads that start "
-                "with a negotiation-looking frame; (iii) seeded random cases: 40% two-ended stream negotiation (pool of 2-7 names drawn from nested, "
+                "with a negotiation-looking frame; (iii) seeded random cases: 25% two-ended stream negotiation (pool of 2-7 names drawn from nested, "
                 "fallback-style, odd-byte, 126..300-byte, 16381..16384-byte and invalid names; lists of 0-6 names; V1 80% / V1Lazy 20%; scheduler script "
                 "of 0-40 polls then alternation; four independent read/write scripts of chunk limits and injected Pendings; payloads of 0-150 bytes incl. "
-                "frames that look like proposals/header/na), 20% ONE real future (dialer or listener) against a scripted peer byte stream (frame sequences "
-                "incl. ls / ls-responses / empty frames / garbage / mutated or truncated varints, closed at the end), 20% webrtc_listener_negotiate and "
+                "frames that look like proposals/header/na), 15% the transports' REAL negotiate_protocol (TCP's and WebSocket's copy: tokio::time::timeout "
+                "around the select future, Negotiated::inner() as open_substream/accept_substream take it) on both ends of the duplex under a PAUSED tokio "
+                "clock: the schedule script interleaves polls with 1 ms clock advances, the two timeouts are drawn around the number of ticks (0, below, at, "
+                "above, never) so that none, one or both wrappers fire before, during (mid-frame) or after the negotiation; ASCII names, dialer list = main "
+                "name followed by fallback names, 15% the Negotiated stream of a single-name dialer (85% V1Lazy, i.e. State::Expecting) as an I/O object "
+                "against a scripted listener (header + confirmation / na / another name / second header / ls / garbage / nothing / truncation, then "
+                "application bytes that may look like negotiation frames): a script of 1-8 poll_read(k) / poll_write / poll_flush / poll_close operations, "
+                "each polled until Ready with the Pendings counted, final state (verif_state) and pipes dumped, 15% ONE real future (dialer or listener) against a scripted peer byte stream (frame sequences "
+                "incl. ls / ls-responses / empty frames / garbage / mutated or truncated varints, closed at the end), 15% webrtc_listener_negotiate and "
                 "10% WebRtcDialerState on generated and mutated payloads, 10% ProtocolSet::report_substream_open on generated main/fallback tables "
-                "(~20% degenerate: shared fallback, fallback equal to a main, unknown name). For a stream case the REAL dialer_select_proto / "
+                "(~20% degenerate: shared fallback, fallback equal to a main, unknown name), and 1% (30 quick / 1500 thorough) END-TO-END: two real Litep2p "
+                "nodes over loopback TCP or WebSocket, each with 1-3 request-response protocols carrying 0-3 fallback names (well-formed tables over a pool of "
+                "versioned names, B mostly offering several of the names A proposes), protocol k of A sends one request: the real open_substream "
+                "(main :: fallbacks over a real yamux stream), accept_substream (ProtocolSet names in hash-map order), report_substream_open on both ends; "
+                "observed: A's terminal event with the fallback it reports, and which protocol of B got the request with which fallback. For a stream case the REAL dialer_select_proto / "
                 "listener_select_proto futures and the Negotiated streams they return are polled over a scripted in-memory duplex; each side then "
                 "writes its payload, closes and reads to EOF. Compared with the extracted Coq model: both results (index or error class), read-end "
                 "status, application bytes received by each side, every byte each side wrote, bytes left unread in each direction, stuck/terminated "
@@ -27,10 +38,21 @@ ENTRY = {
                 "only on a payload that is EXACTLY a well-formed proposal of that name (first position, confirmation as reply), never reject/err on "
                 "such a payload for a supported name, Pending only on the bare header; message-based dialer: verdicts only on payloads containing the "
                 "confirmation of the current name / na, fallbacks proposed in order without header; fallback table: reported (main, fallback) must "
-                "be the declared one (exact for well-formed tables)."),
+                "be the declared one (exact for well-formed tables); timed mode: both terminate, a Timeout only when the schedule holds at least `timeout` "
+                "ticks, whoever reports success reports the first supported name (exact index) timeouts or not, both succeed -> transparent streams, with a "
+                "common name a failure is only excused by a Timeout of one side and the surviving side receives NO byte and a clean EOF, no common name -> "
+                "both fail; stream-ops mode: no panic, every operation becomes Ready, bytes returned by reads are exactly the bytes after [header +] "
+                "confirmation (all of them at EOF, read + left = tail once Completed), no data or EOF ever from a stream whose input is not [header +] "
+                "confirmation, the wire carries header + proposal followed by exactly the accepted write bytes (complete as soon as any operation "
+                "succeeded), write/flush/close fail only after a failed read, after the first error every operation fails with the stream in the failed "
+                "state and its outbound direction closed; end-to-end mode: a response implies that the name in use (A's reported fallback, else its main name) "
+                "is the MOST PREFERRED of main :: fallbacks that B offers, a reported fallback is a declared one, B delivered the request to the protocol "
+                "and with the fallback that Fallback.spec names; a failure only when B offers none of A's names."),
         "trusted_base": [
             "the scripted duplex of harness/src/c03.rs stands for the byte carrier (yamux/TCP below it is not modelled); writes to a dropped end are accepted, a dropped end reads as EOF once drained; poll_flush of the carrier is always Ready",
             "futures are polled with a no-op waker by the scheduler script, i.e. wake-ups are not relied upon",
+            "end-to-end mode: real sockets and real time (request timeout 5 s, harness patience 20 s); Noise, yamux and the transport manager are exercised but not modelled; only well-formed tables (no shared fallbacks, whose winner depends on hash-map order)",
+            "timed mode: tokio's paused clock (start_paused, time::advance by 1 ms per tick inside a current-thread runtime) stands for real time; both wrappers read the same clock; the deadline is fixed at the first poll of negotiate_protocol (its async body creates the Timeout); open_substream's yamux open_stream and accept_substream's keep-alive lookup are outside (they need a yamux connection)",
             "ProtocolSet tables: a fallback name declared by several main protocols is resolved by HashMap iteration order; the harness steers the real map to the order given in the case (rebuilds until it agrees) instead of guessing",
         ],
         "level_text": ("Proof, in six layers. (1) Codec: decode(encode m) = m and injectivity for header, na, ls and every valid name; the ls response "
@@ -49,18 +71,42 @@ ENTRY = {
                       "scheduler reports completion the final state is the one the property demands. (5) Message-based WebRTC variant: listener on "
                       "header+proposal / proposal after header / header alone, trailing bytes rejected, dialer verdict independent of message grouping, "
                       "whole sessions agree on the first supported of main::fallbacks with fallbacks proposed in order. (6) Fallback name -> main "
-                      "protocol mapping of ProtocolSet::report_substream_open. V1Lazy, dialer side: the future settles on its first poll (byte level); "
+                      "protocol mapping of ProtocolSet::report_substream_open (incl. degenerate tables, order independence, protocol_codec, and the proof that "
+                      "the fallback-mode trace oracle accepts the model on EVERY input and nothing else on well-formed tables). (7) The transports' timeout "
+                      "wrapper (negotiate_protocol): a clock, one deadline per side fixed at its first poll, abort = result Timeout + stream dropped, on top "
+                      "of the byte-level system, events = polls and ticks in any order. Key lemma C03_timeout_peer_poll: a poll of ANY task on an inbound "
+                      "pipe closed by the peer equals the poll on the pipe as it was, or the task is finished keeping its result or failing. Hence for all "
+                      "timeouts and interleavings (timer firing mid-frame included): every timed run shadows a plain run, so a reported success carries the "
+                      "exact index of the first supported name on either side (SAFETY), both-succeed runs ARE plain runs (transparency carries over), both "
+                      "tasks TERMINATE under every fair timed schedule (a fired timer strictly lowers the potential, the peer of an aborted side cannot "
+                      "block), the wrapper is invisible while the clock is below the timeouts, and in the inherent one-sided case (listener accepted, the "
+                      "dialer's timer fires before it reads the confirmation) the listener's stream delivers NO byte and ends with a clean EOF "
+                      "(C03_timeout_survivor_clean: no negotiation byte is ever handed to the application as data). (8) The optimistic dialer's Negotiated stream at BYTE "
+                      "level for every fragmentation: one Negotiated::poll from any point of the expectation stays inside `header frame ++ answer frame` or "
+                      "has consumed exactly them with the right verdict (Completed iff the confirmation of the proposed name), flushes header+proposal "
+                      "first, never touches the application bytes behind; the completing poll_read returns their first bytes unchanged; poll_write/flush/"
+                      "close put application bytes on the wire only after the whole negotiation buffer; a failed stream fails every later operation "
+                      "(after the repair F-C03a; it panicked). (9) Composition: a substream opened with `main :: fallbacks` against a ProtocolSet: the "
+                      "negotiated name is the most preferred offered one and both report_substream_open calls name the right main protocol + fallback. "
+                      "V1Lazy, dialer side: the future settles on its first poll (byte level); "
                       "for every application-data content, listener set and schedule the dialer's verdict is 'confirmed' iff the listener supports the "
                       "name (message level); the listener half of agreement is refuted by a witness (upstream-documented pitfall)."),
         "level_note": ("Not proved: that the fuel bound and stuck detector of the harness scheduler (run_sys) never fire - byte-level termination is proved "
                       "for every fair poll sequence instead, and C03_bytes_run_correct covers every completed run_sys run; the V1Lazy dialer-side theorem "
                       "is at message level (application data abstracted as an arbitrary sequence of frames seen by the listener, dialer writes everything "
-                      "before it reads) - there is no byte-level projection for V1Lazy, only the model/implementation diff (litep2p's transports use V1 "
-                      "only). The carrier below the scripted duplex (yamux/TCP), negotiation timeouts and the differential against rust-libp2p's "
+                      "before it reads) - no byte-level two-ended projection for V1Lazy (the per-poll byte-level theorems of layer 8 are about the dialer's stream against "
+                      "a well-formed answer; litep2p's transports use V1 only). Under timeouts agreement of BOTH sides is not claimable (two generals: the "
+                      "listener may have accepted when the dialer's timer fires; C03_timeout_example) - proved instead: safety of every reported success, "
+                      "termination, and that the surviving listener reads nothing but a clean EOF; the mirrored case (dialer succeeded, listener timed out) is "
+                      "demanded of every trace by prop_ok but its impossibility in the model is not a theorem. "
+                      "That code 9 is only ever produced by the abort is not a theorem (the trace oracle checks `Timeout => enough ticks`). Termination of "
+                      "the lazy stream (eventual completion under fairness) is not proved, only per-poll exactness. The carrier below the scripted duplex "
+                      "(yamux/TCP: what dropping a stream sends), open_substream/accept_substream's yamux parts and the differential against rust-libp2p's "
                       "multistream-select are not covered."),
         "assumptions": [
             "protocol names are valid: start with '/', contain no newline, differ from /multistream/1.0.0, and name+1 <= 16383 bytes (others are run and diffed, but only consistency is demanded)",
             "the carrier is a reliable FIFO byte stream per direction",
             "fair scheduling: both futures keep being polled",
+            "timeouts: a dropped stream reads as EOF at the peer once the bytes already written are drained (FIFO carrier); agreement of both sides is only claimed when no timer fires",
         ],
     }
